@@ -19,6 +19,8 @@ struct Chk<'a> {
     ctx: &'a mut Ctx,
     evals: u64,
     fails: BTreeMap<(String, String), (u64, String)>,
+    /// Things worth telling that the property statement does not cover.
+    notes: Vec<(String, String)>,
 }
 
 impl<'a> Chk<'a> {
@@ -112,9 +114,16 @@ fn sized<T: EtherCrabWireSized>(c: &mut Chk, name: &str, n: usize, construct: &s
     c.ok("incrate.checks.packed_len", matches!(r, Ok((p, _)) if p == n), "packed-len-mismatch", construct, || {
         format!("{name}: PACKED_LEN = {r:?}, expected {n}")
     });
-    c.ok("incrate.checks.buffer_len", matches!(r, Ok((_, b)) if b == n), "buffer-len-mismatch", construct, || {
-        format!("{name}: buffer() is {} bytes but PACKED_LEN / the packed image is {n} bytes", r.clone().map(|x| x.1 as i64).unwrap_or(-1))
-    });
+    // `buffer()` ("a buffer sized to contain the packed representation") is not part of the C19
+    // statement (pack/unpack/round trip/short buffers): a wrong size is recorded as an observation.
+    c.ctx.bump("incrate.checks.buffer_len");
+    if !matches!(r, Ok((_, b)) if b == n) {
+        c.ctx.bump("incrate.observed.buffer_len_mismatch");
+        c.notes.push((
+            "incrate.buffer_len".to_string(),
+            format!("{name}: EtherCrabWireSized::buffer() is {} bytes but PACKED_LEN (and the packed image) is {n} bytes", r.clone().map(|x| x.1 as i64).unwrap_or(-1)),
+        ));
+    }
 }
 
 /// Read checks: `img` (plus junk) decodes to a value for which `same` holds, short prefixes fail.
@@ -185,12 +194,19 @@ pub fn run(cfg: &RunCfg, only: Option<usize>, ctx: &mut Ctx, report: &mut Report
             case += 1;
             if only.map_or(true, |k| k == this) {
                 let mut rng = Rng::new(crate::driver::mix(crate::driver::mix(cfg.seed, cfg.shard), this as u64));
-                let mut c = Chk { case: this, ctx: &mut *ctx, evals: 0, fails: BTreeMap::new() };
+                let mut c = Chk { case: this, ctx: &mut *ctx, evals: 0, fails: BTreeMap::new(), notes: Vec::new() };
                 #[allow(clippy::redundant_closure_call)]
                 ($body)(&mut c, &mut rng);
                 let evals = c.evals;
                 let fails = std::mem::take(&mut c.fails);
+                let notes = std::mem::take(&mut c.notes);
                 drop(c);
+                for (k, v) in notes {
+                    let e = report.observations.entry(k).or_default();
+                    if !e.contains(&v) {
+                        e.push(v);
+                    }
+                }
                 ctx.add(&format!("incrate.evaluations.{}", $name), evals);
                 ctx.bump("incrate.sections");
                 report.evaluations += evals;
